@@ -250,6 +250,19 @@ theorem matchedIds_nil_of_out (txs : List α) (matched : List Bool) : ∀ (h pos
       simp [matchedIds, matchedIds_nil_of_out txs matched h (2 * pos) (by omega),
         matchedIds_nil_of_out txs matched h (2 * pos + 1) (by omega)]
 
+theorem isParent_false_get (matched : List Bool) : ∀ (h pos i : Nat), isParent matched h pos = false →
+    i / 2 ^ h = pos → matched[i]?.getD false = false
+  | 0, pos, i, hp, hi => by
+      simp only [Nat.pow_zero, Nat.div_one] at hi
+      subst hi
+      rw [isParent_zero] at hp; exact hp
+  | h + 1, pos, i, hp, hi => by
+      rw [isParent_succ, Bool.or_eq_false_iff] at hp
+      have hc : i / 2 ^ h / 2 = pos := by rw [Nat.div_div_eq_div_mul, ← Nat.pow_succ]; exact hi
+      rcases Nat.mod_two_eq_zero_or_one (i / 2 ^ h) with h0 | h1
+      · exact isParent_false_get matched h (2 * pos) i hp.1 (by omega)
+      · exact isParent_false_get matched h (2 * pos + 1) i hp.2 (by omega)
+
 theorem build_hashes_ne_nil (H : α → α → α) (txs : List α) (matched : List Bool) : ∀ (h pos : Nat),
     (build H txs matched h pos).2 ≠ []
   | 0, pos => by simp [build]
@@ -269,14 +282,22 @@ theorem extract_build [DecidableEq α] {H : α → α → α} (hinj : Injective2
         (build H txs matched h pos).2 = hs.map some ∧
         ∀ (B : List Bool) (Hs : List α), ∃ s,
           extract H txs.length h pos ((build H txs matched h pos).1 ++ B) (hs ++ Hs) = .ok s ∧
-          s.hash = x ∧ s.ids = matchedIds txs matched h pos ∧ s.bits = B ∧ s.hashes = Hs
+          s.hash = x ∧ s.ids = matchedIds txs matched h pos ∧ s.bits = B ∧ s.hashes = Hs ∧
+          (∀ (i : Nat) (xi : α), i / 2 ^ h = pos → matched[i]?.getD false = true → txs[i]? = some xi →
+            ((0, i), xi) ∈ s.nodes)
   | 0, pos, hp => by
       obtain ⟨x, hx⟩ := calcHash_some H txs 0 pos hp
       refine ⟨x, [x], hx, by simp [build, hx], ?_⟩
       intro B Hs
       have hx' : txs[pos]? = some x := by simpa [calcHash] using hx
-      refine ⟨_, by simp only [build, List.cons_append, List.nil_append, extract]; rfl, rfl, ?_, rfl, rfl⟩
-      simp only [isParent_zero, matchedIds, hx', Option.toList_some]
+      refine ⟨_, by simp only [build, List.cons_append, List.nil_append, extract]; rfl, rfl, ?_, rfl, rfl, ?_⟩
+      · simp only [isParent_zero, matchedIds, hx', Option.toList_some]
+      · intro i xi hi _ hxi
+        simp only [Nat.pow_zero, Nat.div_one] at hi
+        subst hi
+        rw [hx'] at hxi
+        cases hxi
+        simp
   | h + 1, pos, hp => by
       obtain ⟨x, hx⟩ := calcHash_some H txs (h + 1) pos hp
       have hw := width_succ txs.length h
@@ -299,8 +320,8 @@ theorem extract_build [DecidableEq α] {H : α → α → α} (hinj : Injective2
             exact hx.symm
           refine ⟨x, hsl ++ hsr, hx, by simp [build, hpar, hr, hbl, hbr], ?_⟩
           intro B Hs
-          obtain ⟨sl, hel', hl1, hl2, hl3, hl4⟩ := hel ((build H txs matched h (2 * pos + 1)).1 ++ B) (hsr ++ Hs)
-          obtain ⟨sr, her', hr1, hr2, hr3, hr4⟩ := her B Hs
+          obtain ⟨sl, hel', hl1, hl2, hl3, hl4, hl5⟩ := hel ((build H txs matched h (2 * pos + 1)).1 ++ B) (hsr ++ Hs)
+          obtain ⟨sr, her', hr1, hr2, hr3, hr4, hr5⟩ := her B Hs
           have hne : xl ≠ xr := by
             intro e
             have := calcHash_pos_inj hinj txs hnd h (2 * pos) (2 * pos + 1) xl hcl (e ▸ hcr)
@@ -313,13 +334,19 @@ theorem extract_build [DecidableEq α] {H : α → α → α} (hinj : Injective2
               List.cons_append, List.append_assoc, extract]
             rw [hel']
             simp only [hl3, hl4, her', hl1, hr1, hne, if_false]
-          · simp only [hxe, hl1, hr1, hl2, hr2, hr3, hr4, matchedIds, and_self]
+          · refine ⟨by simp only [hxe, hl1, hr1], by simp only [hl2, hr2, matchedIds], hr3, hr4, ?_⟩
+            intro i xi hi hm hxi
+            have hc : i / 2 ^ h / 2 = pos := by rw [Nat.div_div_eq_div_mul, ← Nat.pow_succ]; exact hi
+            simp only [List.mem_append, List.mem_singleton]
+            rcases Nat.mod_two_eq_zero_or_one (i / 2 ^ h) with h0 | h1
+            · exact Or.inl (Or.inl (hl5 i xi (by omega) hm hxi))
+            · exact Or.inl (Or.inr (hr5 i xi (by omega) hm hxi))
         · have hxe : x = H xl xl := by
             simp only [calcHash, hcl, hr, if_false, Option.some.injEq] at hx
             exact hx.symm
           refine ⟨x, hsl, hx, by simp [build, hpar, hr, hbl], ?_⟩
           intro B Hs
-          obtain ⟨sl, hel', hl1, hl2, hl3, hl4⟩ := hel B Hs
+          obtain ⟨sl, hel', hl1, hl2, hl3, hl4, hl5⟩ := hel B Hs
           have hout : matchedIds txs matched h (2 * pos + 1) = [] :=
             matchedIds_nil_of_out txs matched h _ (by rw [lt_width_iff] at hr; omega)
           subst hys
@@ -329,7 +356,22 @@ theorem extract_build [DecidableEq α] {H : α → α → α} (hinj : Injective2
           · simp only [build, hpar, Bool.not_true, Bool.false_eq_true, if_false, hr,
               List.cons_append, extract]
             rw [hel']
-          · simp only [hxe, hl1, hl2, hl3, hl4, matchedIds, hout, List.append_nil, and_self]
+          · refine ⟨by simp only [hxe, hl1], by simp only [hl2, matchedIds, hout, List.append_nil], hl3, hl4, ?_⟩
+            intro i xi hi hm hxi
+            have hc : i / 2 ^ h / 2 = pos := by rw [Nat.div_div_eq_div_mul, ← Nat.pow_succ]; exact hi
+            simp only [List.mem_append, List.mem_singleton]
+            rcases Nat.mod_two_eq_zero_or_one (i / 2 ^ h) with h0 | h1
+            · exact Or.inl (hl5 i xi (by omega) hm hxi)
+            · exfalso
+              have hlt : i < txs.length := by
+                rcases Nat.lt_or_ge i txs.length with hlt | hge
+                · exact hlt
+                · rw [List.getElem?_eq_none hge] at hxi; cases hxi
+              have h2 : ¬ (2 * pos + 1) * 2 ^ h < txs.length := fun hh => hr ((lt_width_iff _ _ _).mpr hh)
+              have h3 : i / 2 ^ h * 2 ^ h ≤ i := Nat.div_mul_le_self i (2 ^ h)
+              have h4 : i / 2 ^ h = 2 * pos + 1 := by omega
+              rw [h4] at h3
+              omega
       · -- pruned node: one bit, one hash
         have hpar' : isParent matched (h + 1) pos = false := by
           cases hq : isParent matched (h + 1) pos with
@@ -338,8 +380,11 @@ theorem extract_build [DecidableEq α] {H : α → α → α} (hinj : Injective2
         refine ⟨x, [x], hx, by simp [build, hpar', hx], ?_⟩
         intro B Hs
         refine ⟨_, by simp only [build, hpar', Bool.not_false, if_true, List.cons_append,
-          List.nil_append, extract]; rfl, rfl, ?_, rfl, rfl⟩
-        simp only [matchedIds_nil_of_not_parent txs matched (h + 1) pos hpar']
+          List.nil_append, extract]; rfl, rfl, ?_, rfl, rfl, ?_⟩
+        · simp only [matchedIds_nil_of_not_parent txs matched (h + 1) pos hpar']
+        · intro i xi hi hm _
+          rw [isParent_false_get matched (h + 1) pos i hpar' hi] at hm
+          cases hm
 
 /-! ### the stack machine (on (height, index) positions) refines the recursive parser -/
 
@@ -398,9 +443,9 @@ theorem sim (n : Nat) (H : α → α → α) (root : α) :
       (∀ e, extract H n h idx bits hashes = .error e →
         ∃ k, ∀ f, run (treeOps n) H root (k + f) ⟨S, (h, idx), bits, hashes, ids, nodes⟩ = .err e) ∧
       (∀ s, extract H n h idx bits hashes = .ok s →
-        ∃ k p' nodes', Post n (h, idx) p' ∧ ∀ f,
+        ∃ k p', Post n (h, idx) p' ∧ ∀ f,
           run (treeOps n) H root (k + f) ⟨S, (h, idx), bits, hashes, ids, nodes⟩ =
-          run (treeOps n) H root f ⟨((h, idx), some s.hash) :: S, p', s.bits, s.hashes, ids ++ s.ids, nodes'⟩)
+          run (treeOps n) H root f ⟨((h, idx), some s.hash) :: S, p', s.bits, s.hashes, ids ++ s.ids, nodes ++ s.nodes⟩)
   | 0, idx, S, bits, hashes, ids, nodes, halive, hq => by
       have hstep := step_quiet n H root ⟨S, (0, idx), bits, hashes, ids, nodes⟩ hq halive
       have hlo : (treeOps n).leafOut (0, idx) = false := by
@@ -432,7 +477,7 @@ theorem sim (n : Nat) (H : α → α → α) (root : α) :
                ids ++ (if b then [x] else []), nodes ++ [((0, idx), x)]⟩ := by
             rw [hstep]
             by_cases he : idx % 2 = 0 <;> cases b <;> simp [pushStep, treeOps, he, hlo']
-          refine ⟨1, if idx % 2 = 0 then (0, idx + 1) else (0, idx), nodes ++ [((0, idx), x)], ?_, ?_⟩
+          refine ⟨1, if idx % 2 = 0 then (0, idx + 1) else (0, idx), ?_, ?_⟩
           · unfold Post
             by_cases he : idx % 2 = 0
             · simp [he]
@@ -473,8 +518,7 @@ theorem sim (n : Nat) (H : α → α → α) (root : α) :
               · simp [pushStep, treeOps, he]
               · have : idx % 2 = 0 := by omega
                 simp [pushStep, treeOps, he, this]
-            refine ⟨1, if idx % 2 = 1 then (h + 2, idx / 2) else (h + 1, idx + 1),
-              nodes ++ [((h + 1, idx), x)], ?_, ?_⟩
+            refine ⟨1, if idx % 2 = 1 then (h + 2, idx / 2) else (h + 1, idx + 1), ?_, ?_⟩
             · unfold Post
               by_cases he : idx % 2 = 0
               · have : ¬ idx % 2 = 1 := by omega
@@ -507,7 +551,7 @@ theorem sim (n : Nat) (H : α → α → α) (root : α) :
                 rw [show k + 1 + f = (k + f) + 1 by omega]
                 exact (run_next _ _ _ _ _ h1 _).trans (hk f)⟩
             | ok l =>
-              obtain ⟨k1, p1, nodes1, hpost1, hk1⟩ := ihl.2 l hl
+              obtain ⟨k1, p1, hpost1, hk1⟩ := ihl.2 l hl
               have hp1 : p1 = (h, 2 * idx + 1) := by
                 unfold Post at hpost1
                 have : 2 * idx % 2 = 0 := by omega
@@ -516,7 +560,7 @@ theorem sim (n : Nat) (H : α → α → α) (root : α) :
               by_cases hr : 2 * idx + 1 < width n h
               · -- the right child exists
                 have ihr := sim n H root h (2 * idx + 1)
-                  (((h, 2 * idx), some l.hash) :: ((h + 1, idx), none) :: S) l.bits l.hashes (ids ++ l.ids) nodes1
+                  (((h, 2 * idx), some l.hash) :: ((h + 1, idx), none) :: S) l.bits l.hashes (ids ++ l.ids) (nodes ++ l.nodes)
                   hr (quiet_push_some_none S _ _ _)
                 cases hrr : extract H n h (2 * idx + 1) l.bits l.hashes with
                 | error e =>
@@ -529,14 +573,14 @@ theorem sim (n : Nat) (H : α → α → α) (root : α) :
                     rw [show k1 + k2 + 1 + f = (k1 + (k2 + f)) + 1 by omega]
                     exact (run_next _ _ _ _ _ h1 _).trans ((hk1 _).trans (hk2 f))⟩
                 | ok r =>
-                  obtain ⟨k2, p2, nodes2, hpost2, hk2⟩ := ihr.2 r hrr
+                  obtain ⟨k2, p2, hpost2, hk2⟩ := ihr.2 r hrr
                   have halive2 : p2.2 < width n p2.1 := by
                     unfold Post at hpost2
                     have : ¬ (2 * idx + 1) % 2 = 0 := by omega
                     simpa [this] using hpost2
                   -- the combine step
                   let st3 : St TP α := ⟨((h, 2 * idx + 1), some r.hash) :: ((h, 2 * idx), some l.hash) ::
-                    ((h + 1, idx), none) :: S, p2, r.bits, r.hashes, ids ++ l.ids ++ r.ids, nodes2⟩
+                    ((h + 1, idx), none) :: S, p2, r.bits, r.hashes, ids ++ l.ids ++ r.ids, nodes ++ l.nodes ++ r.nodes⟩
                   have hd3 : (treeOps n).dead p2 = false := by simp [treeOps, halive2]
                   by_cases hdup : l.hash = r.hash
                   · refine ⟨?_, by intro s hs'; simp [extract, hl, hr, hrr, hdup] at hs'⟩
@@ -556,10 +600,10 @@ theorem sim (n : Nat) (H : α → α → α) (root : α) :
                     subst hs'
                     have h3 : step (treeOps n) H root st3 = .next
                         ⟨((h + 1, idx), some (H l.hash r.hash)) :: S, (treeOps n).sib (h + 1, idx), r.bits, r.hashes,
-                         ids ++ l.ids ++ r.ids, nodes2 ++ [((h + 1, idx), H l.hash r.hash)]⟩ := by
+                         ids ++ l.ids ++ r.ids, nodes ++ l.nodes ++ r.nodes ++ [((h + 1, idx), H l.hash r.hash)]⟩ := by
                       simp only [step, st3, hd3, hdup]
                       simp
-                    refine ⟨k1 + k2 + 2, (treeOps n).sib (h + 1, idx), nodes2 ++ [((h + 1, idx), H l.hash r.hash)], ?_, fun f => by
+                    refine ⟨k1 + k2 + 2, (treeOps n).sib (h + 1, idx), ?_, fun f => by
                       rw [show k1 + k2 + 2 + f = (k1 + (k2 + (f + 1))) + 1 by omega]
                       refine (run_next _ _ _ _ _ h1 _).trans ((hk1 _).trans ((hk2 _).trans
                         ((run_next _ _ _ _ _ h3 f).trans ?_)))
@@ -574,16 +618,17 @@ theorem sim (n : Nat) (H : α → α → α) (root : α) :
                 simp only [extract, hl, hr, if_false, Except.ok.injEq] at hs'
                 subst hs'
                 let st2 : St TP α := ⟨((h, 2 * idx), some l.hash) :: ((h + 1, idx), none) :: S,
-                  (h, 2 * idx + 1), l.bits, l.hashes, ids ++ l.ids, nodes1⟩
+                  (h, 2 * idx + 1), l.bits, l.hashes, ids ++ l.ids, nodes ++ l.nodes⟩
                 have hd2 : (treeOps n).dead (h, 2 * idx + 1) = true := by simp [treeOps, hr]
                 have h2 : step (treeOps n) H root st2 = .next
                     ⟨((h + 1, idx), some (H l.hash l.hash)) :: S, (treeOps n).sib (h + 1, idx), l.bits, l.hashes,
-                     ids ++ l.ids, nodes1 ++ [((h + 1, idx), H l.hash l.hash)]⟩ := by
+                     ids ++ l.ids, nodes ++ l.nodes ++ [((h + 1, idx), H l.hash l.hash)]⟩ := by
                   simp only [step, st2, hd2]
                   simp
-                refine ⟨k1 + 2, (treeOps n).sib (h + 1, idx), nodes1 ++ [((h + 1, idx), H l.hash l.hash)], ?_, fun f => by
+                refine ⟨k1 + 2, (treeOps n).sib (h + 1, idx), ?_, fun f => by
                   rw [show k1 + 2 + f = (k1 + (f + 1)) + 1 by omega]
-                  exact (run_next _ _ _ _ _ h1 _).trans ((hk1 _).trans (run_next _ _ _ _ _ h2 f))⟩
+                  refine (run_next _ _ _ _ _ h1 _).trans ((hk1 _).trans ((run_next _ _ _ _ _ h2 f).trans ?_))
+                  simp only [List.append_assoc]⟩
                 unfold Post
                 by_cases he : idx % 2 = 0
                 · simp [treeOps, he]
@@ -653,10 +698,9 @@ def PRes.ids {β : Type} : PRes (List α × β) → PRes (List α)
 
 /-- **the stack machine (on tree positions) computes the recursive specification**, for every
     message, given enough fuel. -/
-theorem machine_refines [DecidableEq α] (H : α → α → α) (maxTx n : Nat) (root : α) (bits : List Bool)
+theorem machine_refines_full [DecidableEq α] (H : α → α → α) (maxTx n : Nat) (root : α) (bits : List Bool)
     (hashes : List α) :
-    ∃ k, ∀ f, (machine (treeOps n) H maxTx n root bits hashes (k + f)).ids =
-      (extractTop H maxTx n root bits hashes).ids := by
+    ∃ k, ∀ f, machine (treeOps n) H maxTx n root bits hashes (k + f) = extractTop H maxTx n root bits hashes := by
   unfold machine extractTop
   by_cases hn : n = 0
   · exact ⟨0, fun f => by simp [hn]⟩
@@ -675,12 +719,293 @@ theorem machine_refines [DecidableEq α] (H : α → α → α) (maxTx n : Nat) 
             simp only [treeOps] at this ⊢
             rw [this]⟩
         | ok s =>
-          obtain ⟨k, p', nodes', _, hk⟩ := hs.2 s he
+          obtain ⟨k, p', _, hk⟩ := hs.2 s he
           refine ⟨k + 1, fun f => ?_⟩
           have := hk (f + 1)
           simp only [treeOps] at this ⊢
           rw [show k + 1 + f = k + (f + 1) by omega, this]
           simp only [run, step, List.nil_append]
-          by_cases hr : s.hash = root <;> simp [hr, PRes.ids]
+          by_cases hr : s.hash = root <;> simp [hr]
+
+theorem machine_refines [DecidableEq α] (H : α → α → α) (maxTx n : Nat) (root : α) (bits : List Bool)
+    (hashes : List α) :
+    ∃ k, ∀ f, (machine (treeOps n) H maxTx n root bits hashes (k + f)).ids =
+      (extractTop H maxTx n root bits hashes).ids := by
+  obtain ⟨k, hk⟩ := machine_refines_full H maxTx n root bits hashes
+  exact ⟨k, fun f => by rw [hk f]⟩
+
+/-! ### the node table of a successful parse -/
+
+theorem extract_own [DecidableEq α] (H : α → α → α) (n : Nat) : ∀ (h pos : Nat) (bits : List Bool)
+    (hashes : List α) (s : Sub α), extract H n h pos bits hashes = .ok s → ((h, pos), s.hash) ∈ s.nodes
+  | 0, pos, bits, hashes, s, he => by
+      cases hashes with
+      | nil => simp [extract] at he
+      | cons y hs => cases bits with
+        | nil => simp [extract] at he
+        | cons b bs => simp only [extract, Except.ok.injEq] at he; subst he; simp
+  | h + 1, pos, bits, hashes, s, he => by
+      cases hashes with
+      | nil => simp [extract] at he
+      | cons y hs => cases bits with
+        | nil => simp [extract] at he
+        | cons b bs =>
+          cases b with
+          | false => simp only [extract, Except.ok.injEq] at he; subst he; simp
+          | true =>
+            simp only [extract] at he
+            cases hl : extract H n h (2 * pos) bs (y :: hs) with
+            | error e => simp [hl] at he
+            | ok l =>
+              simp only [hl] at he
+              by_cases hw : 2 * pos + 1 < width n h
+              · simp only [hw, if_true] at he
+                cases hr : extract H n h (2 * pos + 1) l.bits l.hashes with
+                | error e => simp [hr] at he
+                | ok r =>
+                  simp only [hr] at he
+                  by_cases hd : l.hash = r.hash
+                  · simp [hd] at he
+                  · simp only [hd, if_false, Except.ok.injEq] at he; subst he; simp
+              · simp only [hw, if_false, Except.ok.injEq] at he; subst he; simp
+
+/-- every table entry of the parse of (h, pos) lies in that subtree -/
+theorem extract_subtree [DecidableEq α] (H : α → α → α) (n : Nat) : ∀ (h pos : Nat) (bits : List Bool)
+    (hashes : List α) (s : Sub α), extract H n h pos bits hashes = .ok s →
+      ∀ e ∈ s.nodes, e.1.1 ≤ h ∧ e.1.2 / 2 ^ (h - e.1.1) = pos
+  | 0, pos, bits, hashes, s, he => by
+      cases hashes with
+      | nil => simp [extract] at he
+      | cons y hs => cases bits with
+        | nil => simp [extract] at he
+        | cons b bs =>
+          simp only [extract, Except.ok.injEq] at he; subst he
+          intro e hm; simp at hm; subst hm; simp
+  | h + 1, pos, bits, hashes, s, he => by
+      have key : ∀ (c : Nat) (sub : Sub α) (bs' : List Bool) (hs' : List α), (c = 2 * pos ∨ c = 2 * pos + 1) →
+          extract H n h c bs' hs' = .ok sub → ∀ e ∈ sub.nodes, e.1.1 ≤ h + 1 ∧ e.1.2 / 2 ^ (h + 1 - e.1.1) = pos := by
+        intro c sub bs' hs' hc hsub e hm
+        obtain ⟨h1, h2⟩ := extract_subtree H n h c bs' hs' sub hsub e hm
+        refine ⟨by omega, ?_⟩
+        rw [show h + 1 - e.1.1 = (h - e.1.1) + 1 by omega, Nat.pow_succ, ← Nat.div_div_eq_div_mul, h2]
+        omega
+      cases hashes with
+      | nil => simp [extract] at he
+      | cons y hs => cases bits with
+        | nil => simp [extract] at he
+        | cons b bs =>
+          cases b with
+          | false =>
+            simp only [extract, Except.ok.injEq] at he; subst he
+            intro e hm; simp at hm; subst hm; simp
+          | true =>
+            simp only [extract] at he
+            cases hl : extract H n h (2 * pos) bs (y :: hs) with
+            | error e => simp [hl] at he
+            | ok l =>
+              simp only [hl] at he
+              by_cases hw : 2 * pos + 1 < width n h
+              · simp only [hw, if_true] at he
+                cases hr : extract H n h (2 * pos + 1) l.bits l.hashes with
+                | error e => simp [hr] at he
+                | ok r =>
+                  simp only [hr] at he
+                  by_cases hd : l.hash = r.hash
+                  · simp [hd] at he
+                  · simp only [hd, if_false, Except.ok.injEq] at he; subst he
+                    intro e hm
+                    simp only [List.mem_append, List.mem_singleton] at hm
+                    rcases hm with (hm | hm) | hm
+                    · exact key _ l _ _ (Or.inl rfl) hl e hm
+                    · exact key _ r _ _ (Or.inr rfl) hr e hm
+                    · subst hm; simp
+              · simp only [hw, if_false, Except.ok.injEq] at he; subst he
+                intro e hm
+                simp only [List.mem_append, List.mem_singleton] at hm
+                rcases hm with hm | hm
+                · exact key _ l _ _ (Or.inl rfl) hl e hm
+                · subst hm; simp
+
+theorem calcHash_alive (H : α → α → α) (txs : List α) : ∀ (h pos : Nat) (x : α),
+    calcHash H txs h pos = some x → pos < width txs.length h
+  | 0, pos, x, hc => by
+      rw [width_zero]
+      simp only [calcHash] at hc
+      rcases Nat.lt_or_ge pos txs.length with hlt | hge
+      · exact hlt
+      · rw [List.getElem?_eq_none hge] at hc; cases hc
+  | h + 1, pos, x, hc => by
+      simp only [calcHash] at hc
+      cases hl : calcHash H txs h (2 * pos) with
+      | none => simp [hl] at hc
+      | some l =>
+        have := calcHash_alive H txs h (2 * pos) l hl
+        rw [width_succ]; omega
+
+/-- every table entry of a parse whose root hash is the true one carries the true hash of its node -/
+theorem extract_nodes_correct [DecidableEq α] {H : α → α → α} (hinj : Injective2 H) (txs : List α) :
+    ∀ (h pos : Nat) (bits : List Bool) (hashes : List α) (s : Sub α) (x : α),
+      extract H txs.length h pos bits hashes = .ok s → calcHash H txs h pos = some x → s.hash = x →
+      ∀ e ∈ s.nodes, calcHash H txs e.1.1 e.1.2 = some e.2
+  | 0, pos, bits, hashes, s, x, he, hc, hx => by
+    cases hashes with
+    | nil => simp [extract] at he
+    | cons y hs =>
+      cases bits with
+      | nil => simp [extract] at he
+      | cons b bs =>
+        simp only [extract, Except.ok.injEq] at he
+        subst he
+        simp only at hx
+        subst hx
+        intro e hm; simp at hm; subst hm; exact hc
+  | h + 1, pos, bits, hashes, s, x, he, hc, hx => by
+    cases hashes with
+    | nil => simp [extract] at he
+    | cons y hs =>
+      cases bits with
+      | nil => simp [extract] at he
+      | cons b bs =>
+        cases b with
+        | false =>
+          simp only [extract, Except.ok.injEq] at he
+          subst he
+          simp only at hx
+          subst hx
+          intro e hm; simp at hm; subst hm; exact hc
+        | true =>
+          simp only [extract] at he
+          cases hl : extract H txs.length h (2 * pos) bs (y :: hs) with
+          | error e => simp [hl] at he
+          | ok l =>
+            simp only [hl] at he
+            have hc0 := hc
+            simp only [calcHash] at hc
+            cases hcl : calcHash H txs h (2 * pos) with
+            | none => simp [hcl] at hc
+            | some cl =>
+              simp only [hcl] at hc
+              by_cases hw : 2 * pos + 1 < width txs.length h
+              · simp only [hw, if_true] at he hc
+                cases hr : extract H txs.length h (2 * pos + 1) l.bits l.hashes with
+                | error e => simp [hr] at he
+                | ok r =>
+                  simp only [hr] at he
+                  cases hcr : calcHash H txs h (2 * pos + 1) with
+                  | none => simp [hcr] at hc
+                  | some cr =>
+                    simp only [hcr, Option.some.injEq] at hc
+                    by_cases hd : l.hash = r.hash
+                    · simp [hd] at he
+                    · simp only [hd, if_false, Except.ok.injEq] at he
+                      subst he
+                      simp only at hx
+                      have hh := hinj _ _ _ _ (hx.trans hc.symm)
+                      intro e hm
+                      simp only [List.mem_append, List.mem_singleton] at hm
+                      rcases hm with (hm | hm) | hm
+                      · exact extract_nodes_correct hinj txs h (2 * pos) _ _ l cl hl hcl hh.1 e hm
+                      · exact extract_nodes_correct hinj txs h (2 * pos + 1) _ _ r cr hr hcr hh.2 e hm
+                      · subst hm; simp only; rw [hc0, hx]
+              · simp only [hw, if_false, Except.ok.injEq, Option.some.injEq] at he hc
+                subst he
+                simp only at hx
+                have hh := hinj _ _ _ _ (hx.trans hc.symm)
+                intro e hm
+                simp only [List.mem_append, List.mem_singleton] at hm
+                rcases hm with hm | hm
+                · exact extract_nodes_correct hinj txs h (2 * pos) _ _ l cl hl hcl hh.1 e hm
+                · subst hm; simp only; rw [hc0, hx]
+
+/-- the position `calcBranchRoute` picks at level `k` for the ancestor with index `j` -/
+def routeIdx (n k j : Nat) : Nat :=
+  if j = width n k - 1 ∧ j % 2 = 0 then j else if j % 2 = 0 then j + 1 else j - 1
+
+/-- if the parse of (h, pos) reached leaf `i`, its table has the route node of `i` on every level below `h` -/
+theorem extract_route_present [DecidableEq α] (H : α → α → α) (n : Nat) : ∀ (h pos : Nat) (bits : List Bool)
+    (hashes : List α) (s : Sub α) (i : Nat) (xi : α), pos < width n h → extract H n h pos bits hashes = .ok s →
+      ((0, i), xi) ∈ s.nodes → ∀ k < h, ∃ x, ((k, routeIdx n k (i / 2 ^ k)), x) ∈ s.nodes
+  | 0, _, _, _, _, _, _, _, _, _ => by intro k hk; omega
+  | h + 1, pos, bits, hashes, s, i, xi, halive, he, hi => by
+    have hws := width_succ n h
+    cases hashes with
+    | nil => simp [extract] at he
+    | cons y hs =>
+      cases bits with
+      | nil => simp [extract] at he
+      | cons b bs =>
+        cases b with
+        | false =>
+          simp only [extract, Except.ok.injEq] at he
+          subst he
+          simp at hi
+        | true =>
+          simp only [extract] at he
+          cases hl : extract H n h (2 * pos) bs (y :: hs) with
+          | error e => simp [hl] at he
+          | ok l =>
+            simp only [hl] at he
+            have ownl := extract_own H n h (2 * pos) _ _ l hl
+            have subl := extract_subtree H n h (2 * pos) _ _ l hl
+            by_cases hw : 2 * pos + 1 < width n h
+            · simp only [hw, if_true] at he
+              cases hr : extract H n h (2 * pos + 1) l.bits l.hashes with
+              | error e => simp [hr] at he
+              | ok r =>
+                simp only [hr] at he
+                have ownr := extract_own H n h (2 * pos + 1) _ _ r hr
+                have subr := extract_subtree H n h (2 * pos + 1) _ _ r hr
+                by_cases hd : l.hash = r.hash
+                · simp [hd] at he
+                · simp only [hd, if_false, Except.ok.injEq] at he
+                  subst he
+                  simp only [List.mem_append, List.mem_singleton] at hi
+                  intro k hk
+                  rcases hi with (hi | hi) | hi
+                  · -- the leaf is in the left subtree
+                    have hpos := (subl _ hi).2
+                    simp only [Nat.sub_zero] at hpos
+                    by_cases hkh : k < h
+                    · obtain ⟨x, hx⟩ := extract_route_present H n h (2 * pos) _ _ l i xi (by omega) hl hi k hkh
+                      exact ⟨x, by simp [hx]⟩
+                    · have : k = h := by omega
+                      subst this
+                      refine ⟨r.hash, ?_⟩
+                      have : routeIdx n k (i / 2 ^ k) = 2 * pos + 1 := by
+                        rw [hpos]; unfold routeIdx
+                        (repeat' split) <;> omega
+                      rw [this]; simp [ownr]
+                  · have hpos := (subr _ hi).2
+                    simp only [Nat.sub_zero] at hpos
+                    by_cases hkh : k < h
+                    · obtain ⟨x, hx⟩ := extract_route_present H n h (2 * pos + 1) _ _ r i xi hw hr hi k hkh
+                      exact ⟨x, by simp [hx]⟩
+                    · have : k = h := by omega
+                      subst this
+                      refine ⟨l.hash, ?_⟩
+                      have : routeIdx n k (i / 2 ^ k) = 2 * pos := by
+                        rw [hpos]; unfold routeIdx
+                        (repeat' split) <;> omega
+                      rw [this]; simp [ownl]
+                  · cases hi
+            · simp only [hw, if_false, Except.ok.injEq] at he
+              subst he
+              simp only [List.mem_append, List.mem_singleton] at hi
+              intro k hk
+              rcases hi with hi | hi
+              · have hpos := (subl _ hi).2
+                simp only [Nat.sub_zero] at hpos
+                by_cases hkh : k < h
+                · obtain ⟨x, hx⟩ := extract_route_present H n h (2 * pos) _ _ l i xi (by omega) hl hi k hkh
+                  exact ⟨x, by simp [hx]⟩
+                · have : k = h := by omega
+                  subst this
+                  refine ⟨l.hash, ?_⟩
+                  have : routeIdx n k (i / 2 ^ k) = 2 * pos := by
+                    rw [hpos]; unfold routeIdx
+                    have hlast : 2 * pos = width n k - 1 := by omega
+                    (repeat' split) <;> omega
+                  rw [this]; simp [ownl]
+              · cases hi
 
 end ElaVerif.PMT
